@@ -331,6 +331,36 @@ func run(p *propInfo, tier string, seed int64, replay string) int {
 		if r.timedOut {
 			incon = append(incon, fmt.Sprintf("shard %d timed out after %v", r.shard, timeout))
 		}
+		// the test process died (not by timeout) with a Go runtime crash while
+		// a case was in flight: that case is a violation (the library took the
+		// process down), reported with the case as its replay file
+		if !r.timedOut && (r.stats == nil || !r.stats.Complete) && crashRE.Match(r.output) {
+			if replay != "" {
+				// replaying a case that brings the process down reproduces the violation
+				viols = append(viols, violation{Check: "replay", Replay: replay, Message: string(crashRE.Find(r.output))})
+				continue
+			}
+			infl := filepath.Join(work, fmt.Sprintf("inflight-shard-%d.json", r.shard))
+			if b, err := os.ReadFile(infl); err == nil {
+				var rf map[string]any
+				if json.Unmarshal(b, &rf) == nil {
+					lines := strings.Split(strings.TrimSpace(string(r.output)), "\n")
+					first := crashRE.Find(r.output)
+					rf["message"] = fmt.Sprintf("the test process died while this case was running: %s", first)
+					if len(lines) > 40 {
+						lines = lines[:40]
+					}
+					rf["output"] = strings.Join(lines, "\n")
+					check, _ := rf["check"].(string)
+					path := filepath.Join(replayDir(), fmt.Sprintf("%s-%s-crash-seed%d-shard%d.json", p.ID, check, seed, r.shard))
+					os.MkdirAll(replayDir(), 0o755)
+					j, _ := json.MarshalIndent(rf, "", " ")
+					os.WriteFile(path, j, 0o644)
+					viols = append(viols, violation{Check: check, Replay: path, Message: rf["message"].(string)})
+					continue
+				}
+			}
+		}
 		if r.stats == nil {
 			incon = append(incon, fmt.Sprintf("shard %d wrote no statistics (exit %d)", r.shard, r.exit))
 			continue
@@ -618,6 +648,7 @@ func mergeHashes(files []string) map[string]int64 {
 	return out
 }
 
+var crashRE = regexp.MustCompile(`(?m)^(fatal error: .*|panic: .*|runtime: goroutine stack exceeds.*)$`)
 var fuzzExecsRE = regexp.MustCompile(`execs: ([0-9]+)`)
 var fuzzCaseRE = regexp.MustCompile(`case: in=("(?:[^"\\]|\\.)*")`)
 var fuzzFileRE = regexp.MustCompile(`Failing input written to (\S+)`)
